@@ -645,6 +645,9 @@ type c12World struct {
 	hang          string
 	bad           map[int]func() // attempt goroutine -> restore the spool entry that was made unopenable for it
 	hidden        []func()
+	tickNow       int64 // clock value the tick goroutine read last / had when it armed its timer
+	mkNow         int64
+	late          string
 	resolved      map[string]reflect.Value
 	mutexes       []interface{}
 	lastEntries   map[c12Ent]int
@@ -841,9 +844,11 @@ func (w *c12World) solo(p *c12Pt) bool {
 }
 
 // meet: snd is parked before a send on an unbuffered, open channel and rcv before a receive from
-// the same channel: both together can take one joint step (rendezvous).
+// the same channel: both together can take one joint step (rendezvous).  Not when one of them has an
+// alternative that is ready by itself: which one its select takes would be the runtime's choice
+// (such a goroutine moves alone).
 func (w *c12World) meet(snd, rcv *c12Pt) bool {
-	if snd == nil || rcv == nil {
+	if snd == nil || rcv == nil || w.solo(snd) || w.solo(rcv) {
 		return false
 	}
 	for _, a := range snd.alts {
@@ -884,6 +889,77 @@ func (w *c12World) passed(p *c12Pt) {
 		w.wg++
 	case "wgdone":
 		w.wg--
+	case "now":
+		if strings.HasPrefix(p.fn, "TimeWheel.") {
+			w.tickNow = w.ctl.VNow()
+		}
+	case "newtimer", "after":
+		if strings.HasPrefix(p.fn, "TimeWheel.") {
+			w.mkNow = w.ctl.VNow()
+		}
+	}
+}
+
+// quiescent: no goroutine can take a step; only the clock can change that.
+func (w *c12World) quiescent() bool {
+	for _, k := range []string{"c", "ks", "k", "kt"} {
+		if w.can(c12Tok{kind: k}) {
+			return false
+		}
+	}
+	for i := range w.thr {
+		if w.can(c12Tok{kind: "ku", i: i}) || w.can(c12Tok{kind: "t", i: i}) {
+			return false
+		}
+	}
+	return true
+}
+
+// checkTimely: if nothing can move and the tick goroutine waits for a timer, it must be the right one.
+func (w *c12World) checkTimely() {
+	if w.late != "" || w.tick == nil || w.tick.Finished {
+		return
+	}
+	tm := w.ctl.LiveTimer()
+	p := w.pt(w.tick)
+	if tm == nil || p == nil || tm.Deadline <= w.ctl.VNow() {
+		return
+	}
+	for _, a := range p.alts {
+		if w.isTimerAlt(a) {
+			if w.quiescent() {
+				w.checkEarliest(tm.Deadline)
+			}
+			return
+		}
+	}
+}
+
+// checkEarliest: nothing can move and the tick goroutine waits for its timer.  Every wake-up has
+// been delivered, so the timer must be the one of the earliest pending entry: armed at mkNow for
+// (entry time - clock value read at the top of the loop).  A later deadline means an entry is going
+// to be dispatched late, only when an unrelated timer fires.
+func (w *c12World) checkEarliest(deadline int64) {
+	if w.late != "" {
+		return
+	}
+	first := true
+	var min c12Ent
+	for e := range w.entries() {
+		if first || e.time < min.time || (e.time == min.time && e.msg < min.msg) {
+			min, first = e, false
+		}
+	}
+	if first {
+		return
+	}
+	d := min.time - w.tickNow
+	if d < 0 {
+		d = 0
+	}
+	if deadline > w.mkNow+d {
+		w.late = fmt.Sprintf("nothing left to run at clock %d and the wheel sleeps until %d, but entry %s is pending (loop read the clock at %d, timer armed at %d: its timer would expire at %d): it is dispatched only when an unrelated timer fires",
+			w.ctl.VNow(), deadline, min, w.tickNow, w.mkNow, w.mkNow+d)
 	}
 }
 
@@ -1034,7 +1110,7 @@ func (w *c12World) can(t c12Tok) bool {
 		return t.c >= 1 && t.c <= 3 && w.atDispatch() && !w.disp[len(w.disp)-1].mem && w.solo(w.pt(w.tick))
 	case "kt":
 		p := w.pt(w.tick)
-		if p == nil {
+		if p == nil || w.solo(p) { // with another alternative ready the runtime would choose
 			return false
 		}
 		for _, a := range p.alts {
@@ -1422,7 +1498,9 @@ func c12Setup(out *vh.Out, scn c12Scn) *c12World {
 	return w
 }
 
-func (w *c12World) candidates(r *vh.Rng) []c12Tok {
+// lazyTick: the scheduler goroutine is seldom given the processor in this scenario (producers and
+// attempts run in bursts between two of its steps).
+func (w *c12World) candidates(r *vh.Rng, lazyTick bool) []c12Tok {
 	var c []c12Tok
 	for i := range w.thr {
 		ch := 0
@@ -1435,8 +1513,11 @@ func (w *c12World) candidates(r *vh.Rng) []c12Tok {
 	if r.Chance(5) {
 		c = append(c, c12Tok{kind: "t", i: len(w.thr) + r.Intn(2)}, c12Tok{kind: "ku", i: len(w.thr)})
 	}
-	c = append(c, c12Tok{kind: "c"}, c12Tok{kind: "k"}, c12Tok{kind: "k"}, c12Tok{kind: "kt"}, c12Tok{kind: "ks"})
-	if w.atDispatch() {
+	c = append(c, c12Tok{kind: "c"}, c12Tok{kind: "ks"})
+	if !lazyTick {
+		c = append(c, c12Tok{kind: "k"}, c12Tok{kind: "k"}, c12Tok{kind: "kt"})
+	}
+	if w.atDispatch() && !lazyTick {
 		// the message of the entry being handed over cannot be opened (entries that carry their message
 		// included, now and then: the choice is not enabled for them)
 		if !w.disp[len(w.disp)-1].mem && r.Chance(60) {
@@ -1469,6 +1550,9 @@ func c12RunControlled(out *vh.Out, scn c12Scn, sched []c12Tok, r *vh.Rng, steps 
 			pcs[g] = w.pc(g)
 		}
 		en := w.can(t)
+		if t.kind == "a" {
+			w.checkTimely() // before time passes
+		}
 		if en {
 			w.do(t)
 			bits.WriteByte('1')
@@ -1502,17 +1586,27 @@ func c12RunControlled(out *vh.Out, scn c12Scn, sched []c12Tok, r *vh.Rng, steps 
 			}
 		}
 	} else {
+		lazy := r.Chance(35)
 		for n := 0; n < steps && w.hang == ""; n++ {
-			cands := w.candidates(r)
+			lazyNow := lazy && !r.Chance(20)
+			cands := w.candidates(r, lazyNow)
 			var t c12Tok
 			if r.Chance(88) {
 				var en []c12Tok
-				for _, c := range cands {
-					if c.kind == "c" && w.pc(w.clo) == "setStopped" && (n < closeAfter || (w.wgReal() < closeInflight && n < steps-25)) {
-						continue
+				for pass := 0; pass < 2 && len(en) == 0; pass++ {
+					if pass == 1 {
+						if !lazyNow {
+							break
+						}
+						cands = w.candidates(r, false) // nobody else can move
 					}
-					if w.can(c) {
-						en = append(en, c)
+					for _, c := range cands {
+						if c.kind == "c" && w.pc(w.clo) == "setStopped" && (n < closeAfter || (w.wgReal() < closeInflight && n < steps-25)) {
+							continue
+						}
+						if w.can(c) {
+							en = append(en, c)
+						}
 					}
 				}
 				if len(en) == 0 {
@@ -1549,6 +1643,7 @@ func c12RunControlled(out *vh.Out, scn c12Scn, sched []c12Tok, r *vh.Rng, steps 
 	out.Corr(op, w.observe(bits.String()))
 	if w.hang != "" {
 		w.restoreAll()
+		atomic.AddInt32(&c12SchedHangs, 1)
 		out.Violation("C12/hang", op, "goroutine did not reach its next synchronisation point: "+w.hang)
 		return
 	}
@@ -1585,6 +1680,7 @@ func c12RunControlled(out *vh.Out, scn c12Scn, sched []c12Tok, r *vh.Rng, steps 
 		try(c12Tok{kind: "kt"})
 		if t == nil {
 			if tm := w.ctl.LiveTimer(); tm != nil && tm.Deadline > w.ctl.VNow() && !w.tick.Finished {
+				w.checkTimely()
 				w.ctl.Advance(tm.Deadline - w.ctl.VNow())
 				if w.can(c12Tok{kind: "kt"}) {
 					continue
@@ -1596,6 +1692,7 @@ func c12RunControlled(out *vh.Out, scn c12Scn, sched []c12Tok, r *vh.Rng, steps 
 	}
 	w.restoreAll()
 	if w.hang != "" {
+		atomic.AddInt32(&c12SchedHangs, 1)
 		out.Violation("C12/hang", op, "while draining: "+w.hang)
 		return
 	}
@@ -1627,6 +1724,9 @@ func c12Monitor(w *c12World, op string) {
 	}
 	if w.discardSeen {
 		out.Violation("C12/panic", op, "a panic was recovered in the dispatch goroutine (discardBroken entered)")
+	}
+	if w.late != "" {
+		out.Violation("C12/late-dispatch", op, w.late)
 	}
 	if w.tickAlive != "" {
 		out.Violation("C12/scheduler-alive-after-close", op, "Queue.Close returned while the tick goroutine was still running (at "+w.tickAlive+"): it goes on dispatching")
@@ -1791,17 +1891,21 @@ func TestVerifC12Sched(t *testing.T) {
 		go func() {
 			defer wg.Done()
 			for j := range jobs {
+				if atomic.LoadInt32(&c12SchedHangs) >= c12MaxHangs {
+					out.Stat("sched.skipped-after-hangs")
+					continue
+				}
 				c12RunControlled(out, j.scn, nil, vh.NewRng(j.seed), j.steps, j.closeAfter, j.inflight)
 			}
 		}()
 	}
 	r := vh.NewRng(vh.Seed() + 1201)
 	for i := 0; i < n; i++ {
-		scn := c12Scn{variant: variant, cap: 1 + r.Intn(3), withClose: r.Chance(75), budget: r.Intn(3)}
+		scn := c12Scn{variant: variant, cap: 1 + r.Intn(3), withClose: r.Chance(68), budget: r.Intn(3)}
 		np := 1 + r.Intn(4)
 		for p := 0; p < np; p++ {
 			tm := 0
-			if r.Chance(35) {
+			if r.Chance(45) {
 				tm = 1 + r.Intn(6)
 			}
 			scn.times = append(scn.times, tm)
@@ -1827,6 +1931,12 @@ func TestVerifC12Sched(t *testing.T) {
 }
 
 // ---------------------------------------------------------------- free mode
+
+// scenarios that ended in a 15 s (free mode) / 20 s (controlled mode) time-out so far: after a few
+// of them the rest of the batch is skipped (the verdict is clear, a broken tree would take many minutes)
+var c12FreeHangs, c12SchedHangs int32
+
+const c12MaxHangs = 8
 
 func c12RunFree(out *vh.Out, seed uint64) {
 	op := fmt.Sprintf("C12 free %d", seed)
@@ -1892,15 +2002,70 @@ func c12RunFree(out *vh.Out, seed uint64) {
 		})
 		gs = append(gs, g)
 	}
+	// the operator's hand (or a full file table): once the first attempt of one message has failed, its
+	// meta-data file is out of reach until the shutdown is over; a retry dispatched meanwhile cannot
+	// open the message
+	victim := -1
+	if r.Chance(35) {
+		victim = r.Intn(np)
+	}
+	hideAfter := time.Duration(r.Intn(400)) * time.Microsecond
+	stopHide := make(chan struct{})
+	hideDone := make(chan struct{})
+	hidden := false
+	go func() {
+		defer close(hideDone)
+		if victim < 0 {
+			return
+		}
+		id := c12MsgID(victim)
+		for {
+			select {
+			case <-stopHide:
+				return
+			default:
+			}
+			tgt.mu.Lock()
+			n := tgt.attempts[id]
+			tgt.mu.Unlock()
+			if n > 0 {
+				break
+			}
+			time.Sleep(50 * time.Microsecond)
+		}
+		time.Sleep(hideAfter)
+		hidden = os.Rename(filepath.Join(dir, id+".meta"), filepath.Join(dir, id+".meta_hidden")) == nil
+	}()
+	unhide := func() {
+		close(stopHide)
+		<-hideDone
+		if !hidden {
+			return
+		}
+		id := c12MsgID(victim)
+		from, to := filepath.Join(dir, id+".meta_hidden"), filepath.Join(dir, id+".meta")
+		_, errMeta := os.Stat(to)
+		_, errBody := os.Stat(filepath.Join(dir, id+".body"))
+		if errMeta == nil || errBody != nil {
+			os.Remove(from) // rewritten by an attempt that had opened it before, or the message is gone
+			out.Stat("free.hidden-meta.superseded")
+			return
+		}
+		os.Rename(from, to)
+		out.Stat("free.hidden-meta.restored")
+	}
 	closeDelay := time.Duration(r.Intn(6000)) * time.Microsecond
 	cg, _ := ctl.Spawn("closer", func() {
 		time.Sleep(closeDelay)
 		q.Close()
 	})
 	if !cg.Wait(15 * time.Second) {
+		unhide()
+		atomic.AddInt32(&c12FreeHangs, 1)
 		out.Violation("C12/free-run/close-hang", op, "Queue.Close did not return within 15s")
 		return
 	}
+	unhide()
 	tgt.mu.Lock()
 	for id, n := range tgt.running {
 		if n > 0 {
@@ -1910,6 +2075,7 @@ func c12RunFree(out *vh.Out, seed uint64) {
 	tgt.mu.Unlock()
 	for _, g := range gs {
 		if !g.Wait(15 * time.Second) {
+			atomic.AddInt32(&c12FreeHangs, 1)
 			out.Violation("C12/free-run/goroutine-stuck", op, "a producer's Commit did not return within 15s of the shutdown")
 			return
 		}
@@ -2061,6 +2227,10 @@ func TestVerifC12Free(t *testing.T) {
 		go func() {
 			defer wg.Done()
 			for s := range jobs {
+				if atomic.LoadInt32(&c12FreeHangs) >= c12MaxHangs {
+					out.Stat("free.skipped-after-hangs")
+					continue
+				}
 				c12RunFree(out, s)
 			}
 		}()
